@@ -142,6 +142,9 @@ var h08Lists = [][]string{
 	{"Polish", "polish", "one", "two", "正確"},
 	{"élan", "Élan", "über"},
 	{"macOS", "MacOS"},
+	{"abc", "ÿes", "Ÿes"},
+	{"µm", "Μm"},
+	{"new York", "New York", "o'Neil", "O'Neil"},
 }
 
 // H08: wordlist entropy is exact and depends on the recipe alone.
